@@ -30,7 +30,7 @@ import (
 func TestMain(m *testing.M) { evid.Main("C13", m) }
 
 type Case struct {
-	Op      string `json:"op"`      // commit | commit-first | commit-same | merge | prune | fetch | pull
+	Op      string `json:"op"`      // commit | commit-first | commit-same | merge | prune | fetch | pull | pull-new
 	Rows    int    `json:"rows"`    // size of the base table
 	Edit    int    `json:"edit"`    // row edited by the operation's data
 	Subproc bool   `json:"subproc"` // kill a real wrgl subprocess instead of failing writes in-process
@@ -41,7 +41,7 @@ var sub = evid.Register("crash", run)
 func TestPropCrash(t *testing.T) {
 	rapid.Check(t, func(t *rapid.T) {
 		c := Case{
-			Op:   rapid.SampledFrom([]string{"commit", "commit-first", "merge", "prune", "fetch", "pull", "commit-same"}).Draw(t, "op"),
+			Op:   rapid.SampledFrom([]string{"commit", "commit-first", "merge", "prune", "fetch", "pull", "commit-same", "pull-new"}).Draw(t, "op"),
 			Rows: rapid.SampledFrom([]int{3, 40, 256, 300, 520}).Draw(t, "rows"),
 		}
 		c.Edit = rapid.IntRange(0, c.Rows-1).Draw(t, "edit")
@@ -126,8 +126,9 @@ func setup(c Case) (*world, error) {
 	edited, _ := repo.WriteFile("edited.csv", table(c.Rows, map[int]string{c.Edit: "edited"}, nil).CSV(','))
 	other, _ := repo.WriteFile("other.csv", table(c.Rows, map[int]string{(c.Edit + 1) % c.Rows: "other"}, map[int]bool{(c.Edit + 2) % c.Rows: c.Rows > 2}).CSV(','))
 	switch c.Op {
-	case "fetch", "pull":
+	case "fetch", "pull", "pull-new":
 		// the local repository shares c0 with the remote, which is two commits ahead on main
+		// (pull-new: the local repository has no branch main yet, c0 is on another branch)
 		repo.Remove()
 		tp := syncx.Topology{
 			Nodes: []syncx.Node{
@@ -137,14 +138,17 @@ func setup(c Case) (*world, error) {
 			},
 			Refs: []syncx.Ref{{Name: "heads/main", L: 0, R: 2, R2: 2}},
 		}
+		if c.Op == "pull-new" {
+			tp.Refs = []syncx.Ref{{Name: "heads/main", L: -1, R: 2, R2: 2}, {Name: "heads/dev", L: 0, R: -1, R2: -1}}
+		}
 		sw, err := syncx.Build(tp)
 		if err != nil {
 			return nil, err
 		}
 		sw.Server.MaxPackfileSize = uint64([]int{0, 1, 4000}[c.Rows%3])
-		// half of the cases: the server offers its tables (TableHaves) before the first packfile
+		// three quarters of the cases: the server offers its tables (TableHaves) before the first packfile
 		// and leaves out those the client acknowledges
-		sw.Server.TableNegotiation = c.Edit%2 == 1
+		sw.Server.TableNegotiation = c.Edit%4 != 0
 		w.sync = sw
 		w.repo = sw.Repo
 		repo = sw.Repo
@@ -245,7 +249,7 @@ func run(c Case) (o evid.Outcome, err error) {
 	defer w.cleanup()
 	defer verifhook.SetPlan(verifhook.Plan{})
 	checkHeads := c.Op != "prune"
-	if c.Subproc && (c.Op == "fetch" || c.Op == "pull") {
+	if c.Subproc && (c.Op == "fetch" || c.Op == "pull" || c.Op == "pull-new") {
 		return o, fmt.Errorf("HARNESS: subprocess mode is not available for %s", c.Op)
 	}
 
